@@ -1,0 +1,105 @@
+//go:build verif
+
+package future
+
+// Contracts for the future combinators (future_op.go) — property C06 — checked by /verif/govc.
+//
+// Method.  By C05 a promise is assigned once and every callback registered on it runs exactly
+// once with that result; tasks given to the default executor are started with `go`.  The
+// combinators are therefore verified on the real promise code as sequential programs in which
+// the spawned tasks run later, in the order they were started (verifspec.RunSpawned), for
+// symbolic source results and for each order of "source completed" / "combinator built".
+// For every scenario: the derived future is NOT completed before the sources it depends on, IS
+// completed once they are and the pending tasks ran, and its value is the fp.Try expression of
+// the statement (left-to-right short-circuit), with each user function called as often as that
+// expression calls it.
+
+//@ import "github.com/csgura/fp/promise"
+//@ import "github.com/csgura/fp/try"
+//
+//@ ghost
+//@ func settled[T any](f fp.Future[T]) bool {
+//@ 	verifspec.RunSpawned()
+//@ 	return f.IsCompleted() && verifspec.Spawned() == 0
+//@ }
+//@ func mapScenario[T, U any](t fp.Try[T], f func(T) U, early bool) bool {
+//@ 	p := promise.New[T]()
+//@ 	if early {
+//@ 		p.Complete(t)
+//@ 	}
+//@ 	r := Map(p.Future(), f)
+//@ 	verifspec.RunSpawned()
+//@ 	if !early {
+//@ 		if r.IsCompleted() || verifspec.TraceLen() != 0 {
+//@ 			return false // completed before its source
+//@ 		}
+//@ 		p.Complete(t)
+//@ 	}
+//@ 	if !settled(r) {
+//@ 		return false
+//@ 	}
+//@ 	if t.IsSuccess() {
+//@ 		once := verifspec.CalledOnce(f, t.Get()) // before the specification below applies f itself
+//@ 		return once && verifspec.Eq(verifspec.W(r.Value()), verifspec.W(try.Success(f(t.Get()))))
+//@ 	}
+//@ 	return verifspec.Eq(verifspec.W(r.Value()), verifspec.W(try.Failure[U](t.Failed().Get()))) && verifspec.TraceLen() == 0
+//@ }
+//@ func flatMapScenario[T, U any](t fp.Try[T], tu fp.Try[U], order int) bool {
+//@ 	p := promise.New[T]()
+//@ 	q := promise.New[U]()
+//@ 	if order == 0 {
+//@ 		p.Complete(t)
+//@ 		q.Complete(tu)
+//@ 	}
+//@ 	if order == 1 {
+//@ 		q.Complete(tu)
+//@ 	}
+//@ 	r := FlatMap(p.Future(), func(T) fp.Future[U] { return q.Future() })
+//@ 	verifspec.RunSpawned()
+//@ 	if order != 0 {
+//@ 		if r.IsCompleted() {
+//@ 			return false
+//@ 		}
+//@ 		p.Complete(t)
+//@ 		verifspec.RunSpawned()
+//@ 	}
+//@ 	if order == 2 {
+//@ 		if t.IsSuccess() && r.IsCompleted() {
+//@ 			return false // the inner future is not complete yet
+//@ 		}
+//@ 		q.Complete(tu)
+//@ 	}
+//@ 	if !settled(r) {
+//@ 		return false
+//@ 	}
+//@ 	if t.IsSuccess() {
+//@ 		return verifspec.Eq(verifspec.W(r.Value()), verifspec.W(tu))
+//@ 	}
+//@ 	return verifspec.Eq(verifspec.W(r.Value()), verifspec.W(try.Failure[U](t.Failed().Get())))
+//@ }
+//@ func applyScenario[T any](f func() T) bool {
+//@ 	r := Apply(f)
+//@ 	if r.IsCompleted() || verifspec.TraceLen() != 0 {
+//@ 		return false
+//@ 	}
+//@ 	return settled(r)
+//@ }
+//@ end
+//
+//@ lemma futureMap[T, U any](t fp.Try[T], f func(T) U, early bool)
+//@   prop C06
+//@   ensures mapScenario(t, f, early)
+//
+//@ lemma futureFlatMap[T, U any](t fp.Try[T], tu fp.Try[U])
+//@   prop C06
+//@   ensures flatMapScenario(t, tu, 0)
+//@   tag bothCompleteBeforeBuild
+//@   ensures flatMapScenario(t, tu, 1)
+//@   tag innerFirst
+//@   ensures flatMapScenario(t, tu, 2)
+//@   tag outerFirst
+//
+//@ lemma futureApply[T any](f func() T)
+//@   prop C06 C02
+//@   ensures applyScenario(f)
+//@   tag alwaysCompletes
